@@ -12,21 +12,33 @@ def seqLen (s0 : Nat) : Nat :=
   else if s0 &&& 0xE0 = 0xC0 then 2 else if s0 &&& 0xF0 = 0xE0 then 3 else if s0 &&& 0xF8 = 0xF0 then 4 else 1
 
 /-- `DecodeWTF8Rune` on ANY byte list: never indexes out of range; the width is at most 4 and at most the length;
-the width is 0 exactly when the input is empty or ends inside the sequence its first byte announces. -/
+the width is 0 exactly when the input is empty, so it is at least 1 on every non-empty input; an input that ends
+inside the sequence its first byte announces decodes as `(U+FFFD, 1)`. -/
 theorem decodeWTF8Rune_total (s : List Nat) :
-    ∃ r w, decodeWTF8Rune s = some (r, w) ∧ w ≤ s.length ∧ w ≤ 4 ∧
-      (w = 0 ↔ (s = [] ∨ ∃ s0 rest, s = s0 :: rest ∧ s.length < seqLen s0)) ∧ (w = 0 → r = runeError) := by
+    ∃ r w, decodeWTF8Rune s = some (r, w) ∧ w ≤ s.length ∧ w ≤ 4 ∧ (w = 0 ↔ s = []) ∧ (s ≠ [] → 1 ≤ w) ∧
+      (w = 0 → r = runeError) ∧
+      (∀ s0 rest, s = s0 :: rest → s.length < seqLen s0 → r = runeError ∧ w = 1) := by
   cases s with
-  | nil => exact ⟨runeError, 0, by simp [decodeWTF8Rune], by simp, by omega, by simp, fun _ => rfl⟩
+  | nil =>
+    exact ⟨runeError, 0, by simp [decodeWTF8Rune], by simp, by omega, by simp, by simp, fun _ => rfl,
+      fun s0 rest h => by cases h⟩
   | cons s0 rest =>
+    -- every non-truncated outcome: width ≥ 1, and the "truncated" clause is vacuous
+    have fin : ∀ (r w : Nat), 1 ≤ w → w ≤ (s0 :: rest).length → w ≤ 4 → ¬ ((s0 :: rest).length < seqLen s0) →
+        w ≤ (s0 :: rest).length ∧ w ≤ 4 ∧ (w = 0 ↔ (s0 :: rest) = []) ∧ ((s0 :: rest) ≠ [] → 1 ≤ w) ∧
+          (w = 0 → r = runeError) ∧
+          (∀ a t, s0 :: rest = a :: t → (s0 :: rest).length < seqLen a → r = runeError ∧ w = 1) := by
+      intro r w h1 h2 h3 hnt
+      refine ⟨h2, h3, ⟨fun h => by omega, fun h => by cases h⟩, fun _ => h1, fun h => by omega, ?_⟩
+      intro a t hat hlt
+      cases hat
+      exact absurd hlt hnt
     unfold decodeWTF8Rune
     simp only [List.length_cons, show ¬ (rest.length + 1 < 1) by omega, if_false, List.getElem?_cons_zero]
     by_cases h80 : s0 < 0x80
     · simp only [h80, if_true]
-      refine ⟨s0, 1, rfl, by omega, by omega, ?_, by omega⟩
-      simp [seqLen, h80]
+      exact ⟨s0, 1, rfl, fin s0 1 (by omega) (by simp) (by omega) (by simp [seqLen, h80])⟩
     · simp only [h80, if_false]
-      -- name the announced length
       have hseq : seqLen s0 = (if s0 &&& 0xE0 = 0xC0 then 2 else if s0 &&& 0xF0 = 0xE0 then 3
           else if s0 &&& 0xF8 = 0xF0 then 4 else 1) := by simp [seqLen, h80]
       generalize hsz : (if s0 &&& 0xE0 = 0xC0 then 2 else if s0 &&& 0xF0 = 0xE0 then 3
@@ -40,48 +52,40 @@ theorem decodeWTF8Rune_total (s : List Nat) :
           · split <;> simp
       by_cases hz : sz = 0
       · simp only [hz, if_true]
-        refine ⟨runeError, 1, rfl, by omega, by omega, ?_, by omega⟩
         have : seqLen s0 = 1 := by rcases hszcases with h | h | h | h <;> omega
-        simp [this]
+        exact ⟨runeError, 1, rfl, fin _ 1 (by omega) (by simp) (by omega) (by simp [this])⟩
       · simp only [hz, if_false]
         have hseqsz : seqLen s0 = sz := by rcases hszcases with h | h | h | h <;> omega
         by_cases hn : rest.length + 1 < sz
         · simp only [hn, if_true]
-          refine ⟨runeError, 0, rfl, by omega, by omega, ?_, fun _ => rfl⟩
-          simp only [true_iff]
-          exact Or.inr ⟨s0, rest, rfl, by rw [hseqsz]; simpa using hn⟩
+          refine ⟨runeError, 1, rfl, by simp, by omega, ⟨fun h => by omega, fun h => by cases h⟩, fun _ => by omega,
+            fun h => by omega, fun _ _ _ _ => ⟨rfl, rfl⟩⟩
         · simp only [hn, if_false]
-          have hw : ∀ w : Nat, 1 ≤ w → (w = 0 ↔ ((s0 :: rest) = [] ∨ ∃ a r, s0 :: rest = a :: r ∧ (s0 :: rest).length < seqLen a)) := by
-            intro w hw
-            constructor
-            · omega
-            · rintro (h | ⟨a, r, h, hlt⟩)
-              · cases h
-              · cases h; rw [hseqsz] at hlt; simp at hlt; omega
+          have hnt : ¬ ((s0 :: rest).length < seqLen s0) := by rw [hseqsz]; simpa using hn
           have hsz2 : 2 ≤ sz := by rcases hszcases with h | h | h | h <;> omega
           cases rest with
           | nil => simp at hn; omega
           | cons s1 rest1 =>
             simp only [List.getElem?_cons_succ, List.getElem?_cons_zero]
             split
-            · exact ⟨_, 1, rfl, by simp, by omega, hw 1 (by omega), by omega⟩
+            · exact ⟨_, 1, rfl, fin _ 1 (by omega) (by simp) (by omega) hnt⟩
             · by_cases h2 : sz = 2
               · simp only [h2, if_true]
                 split
-                · exact ⟨_, 1, rfl, by simp, by omega, hw 1 (by omega), by omega⟩
-                · exact ⟨_, 2, rfl, by simp, by omega, hw 2 (by omega), by omega⟩
+                · exact ⟨_, 1, rfl, fin _ 1 (by omega) (by simp) (by omega) hnt⟩
+                · exact ⟨_, 2, rfl, fin _ 2 (by omega) (by simp) (by omega) hnt⟩
               · simp only [h2, if_false]
                 cases rest1 with
                 | nil => simp at hn; omega
                 | cons s2 rest2 =>
                   simp only [List.getElem?_cons_succ, List.getElem?_cons_zero]
                   split
-                  · exact ⟨_, 1, rfl, by simp, by omega, hw 1 (by omega), by omega⟩
+                  · exact ⟨_, 1, rfl, fin _ 1 (by omega) (by simp) (by omega) hnt⟩
                   · by_cases h3 : sz = 3
                     · simp only [h3, if_true]
                       split
-                      · exact ⟨_, 1, rfl, by simp, by omega, hw 1 (by omega), by omega⟩
-                      · exact ⟨_, 3, rfl, by simp, by omega, hw 3 (by omega), by omega⟩
+                      · exact ⟨_, 1, rfl, fin _ 1 (by omega) (by simp) (by omega) hnt⟩
+                      · exact ⟨_, 3, rfl, fin _ 3 (by omega) (by simp) (by omega) hnt⟩
                     · simp only [h3, if_false]
                       cases rest2 with
                       | nil =>
@@ -90,11 +94,10 @@ theorem decodeWTF8Rune_total (s : List Nat) :
                       | cons s3 rest3 =>
                         simp only [List.getElem?_cons_zero]
                         split
-                        · exact ⟨_, 1, rfl, by simp, by omega, hw 1 (by omega), by omega⟩
+                        · exact ⟨_, 1, rfl, fin _ 1 (by omega) (by simp) (by omega) hnt⟩
                         · split
-                          · exact ⟨_, 1, rfl, by simp, by omega, hw 1 (by omega), by omega⟩
-                          · exact ⟨_, 4, rfl, by simp, by omega, hw 4 (by omega), by omega⟩
-
+                          · exact ⟨_, 1, rfl, fin _ 1 (by omega) (by simp) (by omega) hnt⟩
+                          · exact ⟨_, 4, rfl, fin _ 4 (by omega) (by simp) (by omega) hnt⟩
 
 /-! ### the encoder in arithmetic form -/
 
